@@ -82,11 +82,13 @@ async fn handle_http_proxy_connection(
         session
             .write_data_frame(proxy_stream.id(), Bytes::from(request_bytes))
             .await?;
-        if !request.body.is_empty() {
-            session
-                .write_data_frame(proxy_stream.id(), Bytes::from(request.body.clone()))
-                .await?;
-        }
+    }
+    // Bytes that were read together with the header block belong to the tunnel, for CONNECT
+    // (a client that does not wait for the 200) as much as for a forwarded request body.
+    if !request.body.is_empty() {
+        session
+            .write_data_frame(proxy_stream.id(), Bytes::from(request.body.clone()))
+            .await?;
     }
 
     let (mut client_read, mut client_write) = tokio::io::split(client_conn);
